@@ -163,6 +163,20 @@ func runP2(c *p2Case, r *core.Rec, cl p2Clauses) *p2Run {
 	if c.DiskTwin && c.FailWrite == 0 {
 		twinStart = fs.Clone()
 	}
+	// staged twin: scenarios that exchange or copy whole files (and every disk-twin scenario) also run through the staged
+	// Decoder API with the recovery data loaded FIRST; counts, outcome and final directory must be those of the wrappers
+	var stagedStart *envfs.FS
+	if c.FailWrite == 0 && c.PriorGen == 0 && !c.RecDamaged {
+		moved := c.DiskTwin
+		for _, d := range c.Dmg {
+			if d.Op == "swap" || d.Op == "copy" {
+				moved = true
+			}
+		}
+		if moved {
+			stagedStart = fs.Clone()
+		}
+	}
 	vfs := fs.Clone()
 	s.ObserveVerify(vfs, c.G, o)
 	if c.FailWrite > 0 {
@@ -185,6 +199,9 @@ func runP2(c *p2Case, r *core.Rec, cl p2Clauses) *p2Run {
 	r.Outcome(fmt.Sprintf("v:%s/%v r:%s/%d k=%d n=%d intact=%v", errClass(o.VerifyErr), o.Counts, errClass(o.RepairErr), len(o.RepairedPaths), t.K, t.N, t.AllIntact))
 	if twinStart != nil && o.VerifyPanic == nil && o.RepairPanic == nil {
 		diskTwinP2(s, twinStart, o, c, r)
+	}
+	if stagedStart != nil && o.VerifyPanic == nil && o.RepairPanic == nil {
+		stagedTwinP2(s, stagedStart, o, c, r)
 	}
 
 	// panics are violations of every property's implicit "terminates normally"
@@ -475,4 +492,52 @@ func twinSpell(cwd, index string) string {
 		return "./" + strings.Replace(rel, "/", "//", 1)
 	}
 	return index
+}
+
+// stagedTwinP2: the same directory through NewDecoder, LoadParityData, LoadFileData (recovery data first - the reverse
+// of what Verify / Repair do), ShardCounts, Repair. The order of the two loads must not matter.
+func stagedTwinP2(s *scen.P2Set, start *envfs.FS, o *scen.P2Obs, c *p2Case, r *core.Rec) {
+	g := c.G
+	if g <= 0 {
+		g = 1
+	}
+	var counts par2.ShardCounts
+	var lerr, rerr error
+	pi := core.Catch(func() {
+		d, e := par2.VerifNewDecoder(start, par2.DoNothingDecoderDelegate{}, s.Index, g)
+		if e != nil {
+			lerr = e
+			return
+		}
+		if lerr = d.LoadParityData(); lerr != nil {
+			return
+		}
+		if lerr = d.LoadFileData(); lerr != nil {
+			return
+		}
+		counts = d.ShardCounts()
+		_, rerr = d.Repair(c.DoubleCheck)
+	})
+	r.AddTransitions(1)
+	r.Count("staged_twins", 1)
+	if pi != nil {
+		r.Violate("staged-panic:"+pi.Frame, pi.Value+"\n"+pi.Stack)
+		return
+	}
+	if (lerr == nil) != (o.VerifyErr == nil) {
+		r.Violatef("staged-run-differs-from-wrappers:load", "recovery data loaded first: load error %v; Verify: %v", lerr, o.VerifyErr)
+		return
+	}
+	if lerr != nil {
+		return
+	}
+	if counts != o.Counts {
+		r.Violatef("staged-run-differs-from-wrappers:counts", "recovery data loaded first: %+v; Verify: %+v", counts, o.Counts)
+	}
+	if (rerr == nil) != (o.RepairErr == nil) {
+		r.Violatef("staged-run-differs-from-wrappers:repair-error", "recovery data loaded first: Repair %v; wrapper: %v", rerr, o.RepairErr)
+	}
+	if d := envfs.Diff(start.Snapshot(), o.After); len(d) > 0 {
+		r.Violatef("staged-run-differs-from-wrappers:final-directory", "after Repair the directory differs from the wrapper run in %v", d)
+	}
 }
